@@ -7,7 +7,7 @@ if ! git -C $R diff --quiet; then echo "$R has uncommitted changes"; exit 2; fi
 missed=0
 for id in $ids; do
   d=$V/seeded/$id; p=${id:0:3}
-  case $id in C13b) p=C05;; C13c) p=C15;; esac
+  case $id in C13b) p=C05;; C13c) p=C15;; C12d) p=C16;; esac
   git -C $R apply $d/patch.diff || { echo "$id cannot apply"; continue; }
   cp $V/evidence/$p.json /tmp/evidence_$p.$$ 2>/dev/null
   timeout 1500 $V/check $p quick > /tmp/regress_$id.log 2>&1; rc=$?
